@@ -363,6 +363,10 @@ def connectInterface (fl : Flavour) (c : Nat) (svc : Nid) (cache : Cache) (i : I
     let peers ← peersOf iid
     M.guard peers.isEmpty .topology
     let cpName := o.name ++ "-" ++ iname
+    if Rules.connectNamePrecheck then do
+      M.guard (validName .connectionPoint cpName) .value
+      M.guard (validName .link (cpName ++ "-link")) .value
+    else pure ()
     let (cp, c1) ← ifaceNew fl c cpName none (some svc) (some "ServicePort") []
     let t ← typeOf iid
     let ltype := if t == "SharedPort" then "L2Path" else "Patch"
